@@ -81,8 +81,20 @@ func (c18) Exec(ctx *core.Ctx, cs *core.Case) {
 	case 2:
 		sameParserHistory(ctx, p, a) // the profile has just seen a's raw host text in a non-special URL
 	}
-	ca, oka, pa := canonParse(ctx, p, a)
-	cb, okb, pb := canonParse(ctx, p, b)
+	// the entry point varies as well: Parse for both; Parse vs ParseRef with an irrelevant base;
+	// ParseRef with the empty base for both (refused today - if it ever answers, it must canonicalize)
+	ra, rb := 0, 0
+	switch k := (len(a) + len(b)) % 20; {
+	case k < 5:
+		rb = 1
+	case k == 5:
+		ra, rb = 2, 2
+	case k < 10:
+		ra, rb = 3, 1
+	}
+	ctx.Count(fmt.Sprintf("routes:%d/%d", ra, rb))
+	ca, oka, pa := canonParseVia(ctx, p, a, ra)
+	cb, okb, pb := canonParseVia(ctx, p, b, rb)
 	if pa != nil || pb != nil {
 		ctx.Count("panic(C02)")
 		return
